@@ -442,6 +442,9 @@ func unop(fr *frame, instr *ssa.UnOp, x value) value {
 		}
 		return v
 	case token.MUL:
+		if fr.p.race != nil {
+			fr.raceNoteCells(mustDeref(instr.X.Type()), fr.derefPtr(x), false, describeAddr(instr.X))
+		}
 		return load(mustDeref(instr.X.Type()), fr.derefPtr(x))
 	}
 	if sx, ok := x.(sym); ok {
@@ -701,6 +704,9 @@ func lookup(fr *frame, instr *ssa.Lookup, x, idx value) value {
 	switch x := x.(type) {
 	case *omap:
 		key := fr.concreteKey(idx)
+		if fr.p.race != nil && x != nil {
+			fr.raceNote(x, false, "map "+describeAddr(instr.X))
+		}
 		v, ok := x.get(key)
 		if !ok {
 			v = zero(instr.X.Type().Underlying().(*types.Map).Elem())
@@ -883,6 +889,9 @@ func callBuiltin(caller *frame, callpos token.Pos, fn *ssa.Builtin, args []value
 
 	case "delete":
 		m := args[0].(*omap)
+		if fr.p.race != nil && m != nil {
+			fr.raceNote(m, true, "map")
+		}
 		m.del(fr.concreteKey(args[1]))
 		return nil
 
@@ -906,6 +915,9 @@ func callBuiltin(caller *frame, callpos token.Pos, fn *ssa.Builtin, args []value
 		case []value:
 			return len(x)
 		case *omap:
+			if fr.p.race != nil && x != nil {
+				fr.raceNote(x, false, "map (len)")
+			}
 			return x.len()
 		case *channel:
 			if x == nil {
